@@ -67,7 +67,9 @@ fn value(s: &str, kind: FieldKind) -> Val {
         return Val::Ok(v);
     }
     if s.starts_with('+') && s[1..].bytes().all(|b| b.is_ascii_digit()) && s.len() > 1 {
-        return Val::Unspec("explicit plus sign");
+        // the property lists "a stray character" among the rejected inputs, and the documented
+        // grammar has no sign; the crate rejects it in every field
+        return Val::Reject("stray character (+)");
     }
     let lower = s.to_ascii_lowercase();
     if !s.is_ascii() {
